@@ -25,6 +25,15 @@ pub fn gen_hashes(rng: &mut Rng, class: &str, nkeys: usize) -> Vec<u64> {
             "ident" => kk,
             // everything stays in the low half for several doublings, then all move at once
             "split1side" => (c & 0x7) | 0x1000,
+            // keys 1..=20: one bin of a 64-bin table, different hashes, split by the next two
+            // doublings; larger keys: spread over the other bins
+            "split64" => {
+                if kk <= 20 {
+                    (c & 0x3f) | ((kk & 3) << 6) | (kk << 12)
+                } else {
+                    (((c & 0x3f) + kk - 20) & 0x3f) | ((kk & 1) << 6) | (kk << 12)
+                }
+            }
             _ => unreachable!(),
         };
     }
@@ -36,8 +45,151 @@ pub struct GenCfg {
     pub max_keys: usize,
 }
 
+/// Capacity cases (C14): `with_capacity(c)` followed by `c` inserts of distinct well-distributed
+/// keys, or some inserts, `reserve(a)`, and `a` further inserts, with a snapshot after each; `a`
+/// is biased towards the values for which `len + a` is exactly a growth threshold.
+fn gen_room_case(id: usize, seed: u64, rng: &mut Rng) -> Case {
+    let facade = match rng.below(4) {
+        0 | 1 => Facade::MapGuard,
+        2 => Facade::MapPin,
+        _ => Facade::SetGuard,
+    };
+    let is_set = matches!(facade, Facade::SetGuard | Facade::SetPin);
+    let class = *rng.pick(&["uniform", "ident", "highbits"]);
+    let nkeys = 140usize;
+    let hashes = gen_hashes(rng, class, nkeys);
+    let mut next_origin: u32 = 1;
+    let mut next_key: u32 = 0;
+    let mut ops = vec![];
+    let mut ins = |ops: &mut Vec<Op>, rng: &mut Rng| {
+        next_key += 1;
+        next_origin += 2;
+        let it = if is_set { (next_key, next_origin, 0, 0) } else { (next_key, next_origin, rng.below(6), next_origin + 1) };
+        ops.push(Op::Ins(it));
+        ops.push(Op::Snap);
+    };
+    if rng.chance(1, 3) {
+        let c = 1 + rng.below(100) as usize;
+        ops.push(Op::New { slot: 0, cap: c });
+        ops.push(Op::Snap);
+        for _ in 0..c {
+            ins(&mut ops, rng);
+        }
+    } else {
+        let cap = match rng.below(4) { 0 => 0, 1 => 1 + rng.below(20) as usize, _ => 0 };
+        ops.push(Op::New { slot: 0, cap });
+        ops.push(Op::Snap);
+        let n0 = rng.below(30) as usize;
+        for _ in 0..n0 {
+            ins(&mut ops, rng);
+        }
+        let a = if rng.chance(2, 3) {
+            // len + a on a threshold (three quarters of a power of two) or next to one
+            let thr = *rng.pick(&[6usize, 12, 24, 48, 96]);
+            let d = rng.below(3) as usize; // thr-1, thr, thr+1
+            (thr + d).saturating_sub(1 + n0).max(1)
+        } else {
+            1 + rng.below(100) as usize
+        };
+        let a = a.min(nkeys - n0 - 2);
+        ops.push(Op::Reserve(a));
+        ops.push(Op::Snap);
+        for _ in 0..a {
+            ins(&mut ops, rng);
+        }
+    }
+    // one more insert (may grow), a removal and a re-insert (must not grow)
+    ins(&mut ops, rng);
+    ops.push(Op::Rm(1));
+    ops.push(Op::Snap);
+    ops.push(Op::Len);
+    Case { id, seed, facade, hash_class: class, hashes, ops }
+}
+
+/// Tree-bin life-cycle cases: fill one bin of a table with >= 64 bins until it is a tree, shrink
+/// it by removals (in a removal order that may or may not trip the "too small" shape test), then
+/// resize the table so that the bin is split / moved / untreeified, then keep using the map.
+fn gen_tree_resize_case(id: usize, seed: u64, rng: &mut Rng) -> Case {
+    let facade = match rng.below(4) {
+        0 | 1 => Facade::MapGuard,
+        2 => Facade::MapPin,
+        _ => Facade::SetGuard,
+    };
+    let is_set = matches!(facade, Facade::SetGuard | Facade::SetPin);
+    let class = *rng.pick(&["zero", "const", "max", "samebin", "split1side", "alternate", "split64"]);
+    let nkeys = 9 + rng.below(12) as usize;
+    let hashes = gen_hashes(rng, class, nkeys);
+    let mut next_origin: u32 = 1;
+    let mut fresh = || {
+        next_origin += 1;
+        next_origin
+    };
+    let cap = *rng.pick(&[64usize, 43, 100, 170]);
+    let mut ops = vec![Op::New { slot: 0, cap }, Op::Snap];
+    let mut order: Vec<u32> = (1..=nkeys as u32).collect();
+    match rng.below(3) {
+        0 => {}
+        1 => order.reverse(),
+        _ => {
+            for i in (1..order.len()).rev() {
+                order.swap(i, rng.below(i as u64 + 1) as usize);
+            }
+        }
+    }
+    for k in &order {
+        let it = if is_set { (*k, fresh(), 0, 0) } else { (*k, fresh(), rng.below(6), fresh()) };
+        ops.push(Op::Ins(it));
+        ops.push(Op::Snap);
+    }
+    // shrink: remove from the top, from the bottom, or at random, down to 1..=8 entries
+    let keep = 1 + rng.below(8) as usize;
+    let mut victims: Vec<u32> = (1..=nkeys as u32).collect();
+    match rng.below(3) {
+        0 => victims.reverse(),
+        1 => {}
+        _ => {
+            for i in (1..victims.len()).rev() {
+                victims.swap(i, rng.below(i as u64 + 1) as usize);
+            }
+        }
+    }
+    for k in victims.iter().take(nkeys.saturating_sub(keep)) {
+        ops.push(match rng.below(4) {
+            0 if !is_set => Op::Cip(*k, CipFn::Rm),
+            1 => Op::Rme(*k),
+            _ => Op::Rm(*k),
+        });
+        ops.push(Op::Snap);
+    }
+    // resize (possibly twice)
+    for _ in 0..(1 + rng.below(2)) {
+        ops.push(Op::Reserve(60 + rng.below(200) as usize));
+        ops.push(Op::Snap);
+        if rng.chance(1, 2) {
+            let k = 1 + rng.below(nkeys as u64) as u32;
+            let it = if is_set { (k, fresh(), 0, 0) } else { (k, fresh(), rng.below(6), fresh()) };
+            ops.push(Op::Ins(it));
+            ops.push(Op::Snap);
+        }
+    }
+    for _ in 0..rng.below(4) {
+        let k = 1 + rng.below(nkeys as u64) as u32;
+        ops.push(if rng.chance(1, 2) { Op::Rm(k) } else { Op::Get(k) });
+        ops.push(Op::Snap);
+    }
+    ops.push(Op::Iter);
+    ops.push(Op::Len);
+    Case { id, seed, facade, hash_class: class, hashes, ops }
+}
+
 pub fn gen_case(id: usize, seed: u64, cfg: &GenCfg) -> Case {
     let mut rng = Rng(seed ^ 0xC0FFEE);
+    if rng.chance(1, 10) {
+        return gen_room_case(id, seed, &mut rng);
+    }
+    if rng.chance(1, 9) {
+        return gen_tree_resize_case(id, seed, &mut rng);
+    }
     let facade = match rng.below(8) {
         0..=3 => Facade::MapGuard,
         4 | 5 => Facade::MapPin,
